@@ -24,17 +24,32 @@
 // turns) x dense user comments (`#` at line ends and on own lines, incl. empty and one-character ones, ###
 // blocks) x, at random, everything else; the other variants are free compositions.
 //
+// Schema side, user comments BETWEEN TOKENS (slots.go): the rewrite "insert a user comment" is applied wherever the
+// schema language accepts one, in every form (`# …` to the end of the line, `### … ###` on one line, a `###` block
+// spanning line breaks; 1-3 in a row): inside empty brackets, directly behind an opening bracket, between a value
+// and its comma, between a value / comma / opening bracket and the annotation of the node on the same line, before
+// the first and behind the last token of a line and of the text, behind an annotation, between the tokens of a
+// one-line subtree. Per schema 3 single insertions into the base spelling (or a carrier spelling: other line ends,
+// multi-line annotations, quoted rule names) - the place by slot class, so that rare places (an annotated empty
+// array) are met whenever the schema has them - and, as part of the "comments" rewrite of the composed variants,
+// insertions at every slot with probability 0.08 / 0.25 / 0.6. A composed variant that differs is reduced slot by
+// slot before it is reported. Places the unchanged tree refuses (between key and ':' and ':' and value, inside a
+// `@t | @u` shortcut, inside an annotation, a line comment between a node and its annotation, a block spanning lines
+// behind an inline annotation with a note) are probed and counted (stats `outside_language …`), never demanded;
+// `vh c13-metamorphic slots` prints the whole map (slot class x form -> what the tree does).
+//
 // Reading notes (where the property text leaves a choice, the reading the unchanged tree satisfies):
 //   - "extra spaces around ':' and ','" inside a rule object means the SPACE character: a TAB between a bare
 //     rule name and ':' is refused by design (error 302), so tabs are only used where blanks are skipped.
-//   - user comments are only placed where the scanner accepts them: never inside a multi-line annotation,
-//     never between a key and its ':' / between ':' and the value.
+//   - user comments are only demanded where the scanner accepts them (slots.go, legit): never inside an annotation,
+//     never between a key and its ':' / between ':' and the value, never inside a `@t | @u` shortcut.
 //   - the error CODE is compared for every variant; the generator plants at most one defect with a single
 //     symptom per schema, so a rule shuffle cannot legitimately change which error is met first. Schemas
 //     without a planted defect are valid by construction (stat generator_unplanned_invalid must stay 0).
-//   - a `###` block is never empty and its text never starts with '#'; a multi-line block in front of a node
-//     is always closed by a real line break (line breaks inside a block are not line ends for the annotation
-//     binding); notes never start with '{' and never contain '#' or "*/".
+//   - a `###` block is never empty and its text never starts with '#' (`####` / `##x` are errors); line breaks
+//     inside a block are not line ends for the annotation binding: a block spanning lines may stand between a node
+//     and its annotation; a `#` comment ends its line, so in the middle of a line it is a re-spelling only where a
+//     line break is one; notes never start with '{' and never contain '#' or "*/".
 //   - fraction zeros (`1.0` -> `1.00`) are applied to documents only when no schema of the case uses an `enum`
 //     rule: enum items compare numbers as text (known finding K-C10-enumtext, recorded under C10); `const`
 //     compares by value and is covered.
@@ -844,6 +859,9 @@ type spell struct {
 	// tailClean: nothing follows the last token of the schema (no comment, no line end): C14 needs the exact end.
 	tailClean bool
 	lastAnn   string // form of the annotation printed last: "inline" / "multi"
+	lastNote  bool   // the annotation printed last has a note
+	// ins: user comments at the slots between tokens (slots.go); nil = none (base spelling, GenSchemaText)
+	ins *inserter
 }
 
 func baseSpell() *spell {
@@ -1123,6 +1141,7 @@ func (sp *spell) annotation(n *node, depth int) string {
 		return ""
 	}
 	multi := sp.chance(sp.multi)
+	sp.lastNote = note != ""
 	sp.lastAnn = "inline"
 	if multi {
 		sp.lastAnn = "multi"
@@ -1130,6 +1149,7 @@ func (sp *spell) annotation(n *node, depth int) string {
 	var body string
 	if len(n.rules) > 0 {
 		body = sp.ruleSet(n.rules, multi, depth)
+		body = body[:len(body)-1] + sp.slot(slotInfo{kind: "annotation:in-rules", tokBefore: true}, depth) + "}"
 		if note != "" {
 			body += sp.sps1() + "-" + sp.sps1() + note
 		}
@@ -1147,9 +1167,9 @@ func (sp *spell) annotation(n *node, depth int) string {
 		if sp.chance(sp.brk / 2) {
 			cl = sp.eol() + sp.ind(depth) + "*/"
 		}
-		return open + body + cl
+		return open + sp.slot(slotInfo{kind: "annotation:opener|body", tokBefore: true}, depth) + body + sp.slot(slotInfo{kind: "annotation:body|closer", tokBefore: true}, depth) + cl
 	}
-	return "//" + sp.sps1() + body
+	return "//" + sp.slot(slotInfo{kind: "annotation:opener|body", tokBefore: true}, depth) + sp.sps1() + body
 }
 
 // printer collects the lines of one schema text.
@@ -1162,37 +1182,64 @@ type printer struct {
 	pendingAt   int
 }
 
-// compactText prints a rule-free subtree on one line (the same in every spelling).
-func compactText(n *node) string {
+// compactText prints a rule-free subtree on one line (the same in every spelling apart from inserted user comments:
+// S returns what is inserted at a slot between two tokens, "" without an inserter).
+func compactText(n *node, S func(kind string) string) string {
 	switch n.kind {
 	case "arr":
-		var xs []string
-		for _, k := range n.kids {
-			xs = append(xs, compactText(k))
+		if len(n.kids) == 0 {
+			return "[" + S("compact:empty") + "]"
 		}
-		return "[" + strings.Join(xs, ", ") + "]"
-	case "obj":
-		var xs []string
+		var sb strings.Builder
+		sb.WriteString("[" + S("compact:open|value"))
 		for i, k := range n.kids {
-			xs = append(xs, n.keys[i]+": "+compactText(k))
+			if i > 0 {
+				sb.WriteString(S("compact:value|comma") + "," + S("compact:comma|value") + " ")
+			}
+			sb.WriteString(compactText(k, S))
 		}
-		return "{" + strings.Join(xs, ", ") + "}"
+		sb.WriteString(S("compact:value|close") + "]")
+		return sb.String()
+	case "obj":
+		if len(n.kids) == 0 {
+			return "{" + S("compact:empty") + "}"
+		}
+		var sb strings.Builder
+		sb.WriteString("{" + S("compact:open|key"))
+		for i, k := range n.kids {
+			if i > 0 {
+				sb.WriteString(S("compact:value|comma") + "," + S("compact:comma|key") + " ")
+			}
+			sb.WriteString(n.keys[i] + S("compact:key|colon") + ":" + S("compact:colon|value") + " " + compactText(k, S))
+		}
+		sb.WriteString(S("compact:value|close") + "}")
+		return sb.String()
 	}
 	return n.lit
 }
 
-func (p *printer) emit(depth int, content string) {
+// emit appends one line of the schema. annAfter: the content carries an annotation (what is put in front of the
+// content must not end the line then, unless nothing of the node stands before it).
+func (p *printer) emit(depth int, content string, annAfter bool) {
 	sp := p.sp
 	p.lines = append(p.lines, sp.between(depth)...)
 	line := sp.ind(depth)
 	if sp.chance(sp.cBlock / 2) { // a closed one-line block in front of the content of the line
 		line += "###" + []string{" c ", "x", " \"a\": 1, ", " // {min: 1} ", " [ "}[sp.r.Intn(5)] + "###" + []string{"", " ", "\t"}[sp.r.Intn(3)]
 	}
+	line += p.slot(slotInfo{kind: "line-start", annAfter: annAfter}, depth)
 	line += content
+	lineOpen := sp.ins != nil && sp.ins.lineOpen
+	if lineOpen {
+		sp.ins.lineOpen = false
+	}
 	if !p.inlineAnn && !sp.tailClean && sp.chance(sp.cBlock/2) {
 		// a block behind the content (not behind an inline annotation: the rest of that line belongs to it); it may
 		// span lines, the line break that follows it is the one that ends the line for the annotation binding
-		line += []string{"", " ", "  "}[sp.r.Intn(3)] + "###" + []string{" 333 ", " 333" + sp.eol() + "   444" + sp.eol(), " some comment 1 ", sp.eol() + "\"z\": 0," + sp.eol()}[sp.r.Intn(4)] + "###"
+		behind := []string{"", " ", "  "}[sp.r.Intn(3)] + "###" + []string{" 333 ", " 333" + sp.eol() + "   444" + sp.eol(), " some comment 1 ", sp.eol() + "\"z\": 0," + sp.eol()}[sp.r.Intn(4)] + "###"
+		if !lineOpen { // (drawn in any case: the spelling does not depend on what the inserter wrote)
+			line += behind
+		}
 	}
 	p.inlineAnn = false
 	p.lines = append(p.lines, line)
@@ -1206,44 +1253,93 @@ func (p *printer) emit(depth int, content string) {
 	p.pending, p.pendingAt = p.lastComment, len(p.lines)-1
 }
 
-// node prints n; prefix = `"key": ` or "", comma = "," or "".
-func (p *printer) node(n *node, depth int, prefix, comma string) {
+// node prints n; key = the key text with its quotes or "" (array item / root), comma = "," or "".
+//
+// Every place between two tokens of the printed text is a SLOT (p.slot): with an inserter attached to the spelling
+// (c13-metamorphic only) user comments are inserted there, see slots.go. Without one the text is what it always was
+// (the order of the random draws included: GenSchemaText and its consumers are not affected).
+func (p *printer) node(n *node, depth int, key, comma string) {
 	sp := p.sp
-	ann := func() string {
-		a := sp.annotation(n, depth)
-		if a == "" {
-			return ""
-		}
-		p.inlineAnn = strings.HasPrefix(a, "//")
-		return " " + sp.sps() + a
-	}
-	if prefix != "" && sp.spaces > 0 { // `"key" : value`
-		k := strings.TrimSuffix(prefix, ": ")
-		prefix = k + sp.sps() + ":" + " " + sp.sps()
+	ksp, vsp := "", ""
+	if key != "" && sp.spaces > 0 { // `"key" : value`
+		ksp = sp.sps()
+		vsp = sp.sps()
 	}
 	bc := comma
 	if comma != "" {
 		bc = sp.sps() + comma
 	}
+	a := sp.annotation(n, depth)
+	lead, annForm := "", ""
+	if a != "" {
+		p.inlineAnn = strings.HasPrefix(a, "//")
+		lead = " " + sp.sps()
+		switch {
+		case !p.inlineAnn:
+			annForm = "multi"
+		case sp.lastNote:
+			annForm = "inline-note"
+		default:
+			annForm = "inline"
+		}
+	}
+	// S: a slot of this node's first line; tokBefore: a token of the node stands before it on the line.
+	S := func(kind string, tokBefore, eolNext bool) string {
+		return p.slot(slotInfo{kind: kind, annAfter: a != "" && kind != "after-ann", tokBefore: tokBefore, eolNext: eolNext, annForm: annForm}, depth)
+	}
+	mid := func(kind string) string { return S(kind, true, false) }
+	prefix := ""
+	if key != "" {
+		prefix = key + ksp + mid("key|colon") + ":" + mid("colon|value") + " " + vsp
+	}
+	// tail: what follows a complete value on its line
+	tail := func() string {
+		switch {
+		case comma != "" && a != "":
+			return mid("value|comma") + bc + mid("comma|annotation") + lead + a + S("after-ann", true, true)
+		case comma != "":
+			return mid("value|comma") + bc + S("line-end", true, true)
+		case a != "":
+			return mid("value|annotation") + lead + a + S("after-ann", true, true)
+		}
+		return S("line-end", true, true)
+	}
+	// open: what follows an opening bracket
+	open := func() string {
+		if a != "" {
+			return mid("open|annotation") + lead + a + S("after-ann", true, true)
+		}
+		return S("open|line-end", true, true)
+	}
+	closing := func(br string) {
+		q := func(kind string, eolNext bool) string {
+			return p.slot(slotInfo{kind: kind, tokBefore: true, eolNext: eolNext}, depth)
+		}
+		if comma != "" {
+			p.emit(depth, br+q("close|comma", false)+bc+q("line-end", true), false)
+		} else {
+			p.emit(depth, br+q("line-end", true), false)
+		}
+	}
 	switch {
 	case n.compact:
-		p.emit(depth, prefix+compactText(n)+bc+ann())
+		p.emit(depth, prefix+compactText(n, mid)+tail(), a != "")
 	case n.kind == "obj" && len(n.kids) == 0:
-		p.emit(depth, prefix+"{}"+bc+ann())
+		p.emit(depth, prefix+"{"+mid("empty-brackets")+"}"+tail(), a != "")
 	case n.kind == "arr" && len(n.kids) == 0:
-		p.emit(depth, prefix+"[]"+bc+ann())
+		p.emit(depth, prefix+"["+mid("empty-brackets")+"]"+tail(), a != "")
 	case n.kind == "obj":
-		p.emit(depth, prefix+"{"+ann())
+		p.emit(depth, prefix+"{"+open(), a != "")
 		for i, k := range n.kids {
 			c := ","
 			if i == len(n.kids)-1 {
 				c = ""
 			}
-			p.node(k, depth+1, n.keys[i]+": ", c)
+			p.node(k, depth+1, n.keys[i], c)
 		}
-		p.emit(depth, "}"+bc)
+		closing("}")
 	case n.kind == "arr":
-		p.emit(depth, prefix+"["+ann())
+		p.emit(depth, prefix+"["+open(), a != "")
 		for i, k := range n.kids {
 			c := ","
 			if i == len(n.kids)-1 {
@@ -1251,9 +1347,12 @@ func (p *printer) node(n *node, depth int, prefix, comma string) {
 			}
 			p.node(k, depth+1, "", c)
 		}
-		p.emit(depth, "]"+bc)
+		closing("]")
+	case n.kind == "ref" && strings.Contains(n.lit, " | "):
+		parts := strings.SplitN(n.lit, " | ", 2)
+		p.emit(depth, prefix+parts[0]+mid("shortcut:name|pipe")+" | "+mid("shortcut:pipe|name")+parts[1]+tail(), a != "")
 	default:
-		p.emit(depth, prefix+n.lit+bc+ann())
+		p.emit(depth, prefix+n.lit+tail(), a != "")
 	}
 }
 
@@ -2043,7 +2142,8 @@ func sizeBucket(n int) string {
 	return "26+"
 }
 
-func oneCase(seed int64, nVariants, nDocVariants int) (res caseResult) {
+// nSweep / nProbe: single comment insertions per schema (commentSweep); explore: the slot map instead of the checks.
+func oneCase(seed int64, nVariants, nDocVariants, nSweep, nProbe int, explore bool) (res caseResult) {
 	g := &gen{r: rand.New(rand.NewSource(seed)), features: map[string]bool{}, wide: true}
 	r := g.r
 	types := typeTable{}
@@ -2145,7 +2245,25 @@ func oneCase(seed int64, nVariants, nDocVariants int) (res caseResult) {
 		if layout >= 0 {
 			res.stat(fmt.Sprintf("layout_comments_x_eol_%q", strings.Join(sp.eols, "|")))
 		}
-		vt := printAll(sp)
+		// the "comments" rewrite also puts comments BETWEEN the tokens of a line (every form that is a re-spelling at
+		// the slot, several in a row); own PRNG per slot: the rest of the spelling is what it is without them
+		between := sp.has("comments") && (layout >= 0 || k%2 == 1)
+		respell := func(only map[int]bool) (*spell, texts) {
+			sp := variantSpellForced(rand.New(rand.NewSource(seed*31+int64(k)+1)), layout)
+			if between {
+				sp.ins = &inserter{mode: 'r', seed: seed*37 + int64(k) + 3, p: []float64{0.08, 0.25, 0.6}[(seed>>2+int64(k))%3], used: map[string]int{}, only: only}
+			}
+			return sp, printAll(sp)
+		}
+		sp, vt := respell(nil)
+		if sp.ins != nil {
+			res.stat("rewrite_comments_between_tokens")
+			for u, c := range sp.ins.used {
+				for ; c > 0; c-- {
+					res.stat("comment_random " + u)
+				}
+			}
+		}
 		dropNotes, sortRules := sp.has("notes"), sp.has("rule-order")
 		key := [2]bool{dropNotes, sortRules}
 		bo, ok := baseCache[key]
@@ -2185,16 +2303,45 @@ func oneCase(seed int64, nVariants, nDocVariants int) (res caseResult) {
 				modelS = append(modelS, fmt.Sprintf("Validate(base, %s)=%s", docs[i], bo.val[i]))
 			}
 		}
+		reduced := ""
+		if len(bad) > 0 && sp.ins != nil && len(sp.ins.hit) > 0 {
+			// reduce: drop the comments between tokens slot by slot as long as the variant still differs from the base
+			keep := map[int]bool{}
+			for _, h := range sp.ins.hit {
+				keep[h] = true
+			}
+			differs := func(only map[int]bool) (texts, bool) {
+				_, t := respell(only)
+				b, _, _ := compareObs(bo, observe(t, docs, dropNotes, sortRules), docs)
+				return t, len(b) > 0
+			}
+			for _, h := range sp.ins.hit {
+				delete(keep, h)
+				if _, d := differs(keep); !d {
+					keep[h] = true
+				}
+			}
+			if t, d := differs(keep); d {
+				reduced = fmt.Sprintf("\nreduced (comments between tokens only at %d of %d places, still differs): %s", len(keep), len(sp.ins.hit), showTexts("variant", t))
+			}
+		}
 		if len(bad) > 0 {
 			res.diffs = append(res.diffs, vh.Diff{
 				Component: "C13-schema",
-				Input:     fmt.Sprintf("%s\n%s\nrewrites=%v astNotesBlanked=%v astRuleOrderNormalised=%v seed=%d variant=%d", showTexts("base", base), showTexts("variant", vt), sp.applied, dropNotes, sortRules, seed, k),
+				Input:     fmt.Sprintf("%s\n%s\nrewrites=%v astNotesBlanked=%v astRuleOrderNormalised=%v seed=%d variant=%d%s", showTexts("base", base), showTexts("variant", vt), sp.applied, dropNotes, sortRules, seed, k, reduced),
 				Impl:      strings.Join(implS, "\n"),
 				Model:     "all spellings of one schema behave alike: " + strings.Join(modelS, "\n"),
 				Note:      "differs in: " + strings.Join(bad, ","),
 			})
 		}
 	}
+
+	// ---- schema side: one user comment (or a run of them) at one place between two tokens
+	if explore {
+		commentSweep(seed, &res, base, raw, docs, printAll, 0, 0, true)
+		return res
+	}
+	commentSweep(seed, &res, base, raw, docs, printAll, nSweep, nProbe, false)
 
 	// ---- document side (only meaningful when the schema is accepted)
 	if raw.check == "OK" {
@@ -2385,11 +2532,17 @@ var (
 )
 
 func Run(args []string) {
-	rep := vh.NewReport(command, "abstract schemas (objects, arrays incl. nested arrays followed by annotated elements, scalars of 5 kinds, @t / @t | @u shortcuts to 2 generated added types; rules min/max/exclusive*/lengths/regex/enum/const/type/precision/optional/nullable/minItems/maxItems/additionalProperties/or; notes; 1 in 6 schemas carries one planted single-symptom defect) printed in a BASE spelling and in VARIANT spellings = random compositions of: line ends LF/CRLF/CR/mixed, indentation none/spaces/tabs/mixed, user comments (# at line end incl. empty, full-line #, ### blocks between lines), inline vs multi-line annotations (with line breaks inside the rule object), notes dropped/changed/added, quoted vs bare rule names, trailing comma, extra spaces around ':' ',', rule order. Compared per (base, variant): Check verdict+code, AST JSON of root and added types (comment fields blanked iff notes were rewritten, rule order normalised iff rules were shuffled), Validate verdict on 6 documents (2 sampled, 3 mutated, 1 unrelated). The first variant of every schema combines a line-end style (LF / CRLF / CR / 4 mixtures, by turns) with dense user comments. Named enum rules ({enum: @e1}, added with AddRule) are the rule values that are shortcuts. Document side: each document of an accepted schema re-spelled (one random composition of whitespace, member order at all levels, escapes in keys and values incl. surrogate pairs and \\/ , fraction zeros; plus sweeps with one rewrite at a time: 5 document-wide escape forms = all two-character escapes / \\u lower / upper / mixed-case hex / \\u only where required, and for up to 2 objects per document all member orders (<= 3 members) or reverse + rotation + 6 random orders) and validated; objects under additionalProperties (all modes: false, true, any, every schema type, @t, @u) get 0-4 additional members of mixed conformity. nontrivial = variant text differs from base text and (schema side) the schema has >=1 annotation / (document side) the document has a string or an object with >=2 members")
+	rep := vh.NewReport(command, "abstract schemas (objects, arrays incl. nested arrays followed by annotated elements, scalars of 5 kinds, @t / @t | @u shortcuts to 2 generated added types; rules min/max/exclusive*/lengths/regex/enum/const/type/precision/optional/nullable/minItems/maxItems/additionalProperties/or; notes; 1 in 6 schemas carries one planted single-symptom defect) printed in a BASE spelling and in VARIANT spellings = random compositions of: line ends LF/CRLF/CR/mixed, indentation none/spaces/tabs/mixed, user comments (# at line end incl. empty, full-line #, ### blocks between lines; BETWEEN THE TOKENS of a line at every slot the language accepts: inside empty brackets, behind an opening bracket, value|comma, value / comma / bracket | annotation, before / behind the line, behind an annotation, inside one-line subtrees - forms `# …`+line break, `### … ###`, ### block spanning line breaks, 1-3 in a row), inline vs multi-line annotations (with line breaks inside the rule object), notes dropped/changed/added, quoted vs bare rule names, trailing comma, extra spaces around ':' ',', rule order. Compared per (base, variant): Check verdict+code, AST JSON of root and added types (comment fields blanked iff notes were rewritten, rule order normalised iff rules were shuffled), Validate verdict on 6 documents (2 sampled, 3 mutated, 1 unrelated). The first variant of every schema combines a line-end style (LF / CRLF / CR / 4 mixtures, by turns) with dense user comments. Comment sweep: per schema 3 single insertions (1-3 comments of one form at ONE slot of the base spelling or of a carrier spelling with other line ends / multi-line annotations / quoted names; slot class chosen uniformly among the classes present, stats comment_sweep <class> <form>) compared with the base spelling like a variant, and 1 probe at a place outside the language (stats outside_language …, never a diff). Named enum rules ({enum: @e1}, added with AddRule) are the rule values that are shortcuts. Document side: each document of an accepted schema re-spelled (one random composition of whitespace, member order at all levels, escapes in keys and values incl. surrogate pairs and \\/ , fraction zeros; plus sweeps with one rewrite at a time: 5 document-wide escape forms = all two-character escapes / \\u lower / upper / mixed-case hex / \\u only where required, and for up to 2 objects per document all member orders (<= 3 members) or reverse + rotation + 6 random orders) and validated; objects under additionalProperties (all modes: false, true, any, every schema type, @t, @u) get 0-4 additional members of mixed conformity. nontrivial = variant text differs from base text and (schema side) the schema has >=1 annotation / (document side) the document has a string or an object with >=2 members")
 	r := vh.NewRand(salt)
 	nSchemas := vh.Pick(2200, 60000)
 	nVar, nDocVar := 4, 1
+	nSweep, nProbe := 3, 1
 	debug := len(args) > 0 && args[0] == "debug"
+	// `vh c13-metamorphic slots`: the slot map (every slot class x comment form once per schema: what the tree does)
+	explore := len(args) > 0 && args[0] == "slots"
+	if explore {
+		nSchemas = vh.Pick(1500, 20000)
+	}
 
 	seeds := make([]int64, nSchemas)
 	for i := range seeds {
@@ -2409,7 +2562,7 @@ func Run(args []string) {
 			defer wg.Done()
 			for i := range next {
 				done := make(chan caseResult, 1)
-				go func(i int) { done <- oneCase(seeds[i], nVar, nDocVar) }(i)
+				go func(i int) { done <- oneCase(seeds[i], nVar, nDocVar, nSweep, nProbe, explore) }(i)
 				select {
 				case res := <-done:
 					results[i] = res
@@ -2437,6 +2590,9 @@ func Run(args []string) {
 		for _, d := range res.diffs {
 			rep.AddDiff(d)
 		}
+	}
+	if explore {
+		printSlotMap()
 	}
 	if debug {
 		sort.Strings(dbgInvalid)
